@@ -164,3 +164,100 @@ Definition closer (t : token) : bool :=
   match classify t with LBreak => negb (chain_tok t) | _ => false end.
 Definition closerL (ts : list token) : bool :=
   match ts with [] => true | t :: _ => closer t end.
+
+(* ------------------------------------------------------------------ the documented table vs. the binding powers *)
+From Coq Require Import String.
+Inductive opref := RBin (o : bop) | RUn (u : unop) | RPostfix.
+
+(* the spellings used by docs/content/_index.md "Operator precedence" *)
+Open Scope string_scope.
+Definition doc_sym (s : string) : option opref :=
+  let is := String.eqb s in
+  if is "or" then Some (RBin OOr) else if is "and" then Some (RBin OAnd)
+  else if is "not" then Some (RUn UNot)
+  else if is "in" then Some (RBin OIn) else if is "not in" then Some (RBin OIn)
+  else if is "is" then Some (RBin OIs) else if is "is not" then Some (RBin OIs)
+  else if is "==" then Some (RBin OEq) else if is "!=" then Some (RBin ONe)
+  else if is "<" then Some (RBin OLt) else if is "<=" then Some (RBin OLe)
+  else if is ">" then Some (RBin OGt) else if is ">=" then Some (RBin OGe)
+  else if is "+" then Some (RBin OPlus) else if is "-" then Some (RBin OMinus)
+  else if is "*" then Some (RBin OMul) else if is "/" then Some (RBin ODiv)
+  else if is "//" then Some (RBin OFloorDiv) else if is "%" then Some (RBin OMod)
+  else if is "~" then Some (RBin OConcat) else if is "**" then Some (RBin OPower)
+  else if is "|" then Some (RBin OPipe)
+  else if is "- (unary)" then Some (RUn UMinus)
+  else if is "." then Some RPostfix else if is "[]" then Some RPostfix else if is "()" then Some RPostfix
+  else None.
+Close Scope string_scope.
+
+(* how tightly the parser binds: a unary operator with r_bp r binds tighter than exactly the
+   infix operators with l_bp < r, so it sits between l_bp = r-1 and l_bp = r *)
+Definition bind_key (bp : bp_table) (r : opref) : option nat :=
+  match r with
+  | RBin o => Some (2 * lbp bp o)
+  | RUn u => Some (2 * un_bp bp u - 1)
+  | RPostfix => None     (* `.`, `[]`, `()` are consumed by parse_ident / the loop without a power: tightest *)
+  end.
+
+Definition opref_eqb (a b : opref) : bool :=
+  match a, b with
+  | RBin x, RBin y => bop_eqb x y
+  | RUn UNot, RUn UNot | RUn UMinus, RUn UMinus => true
+  | RPostfix, RPostfix => true
+  | _, _ => false
+  end.
+
+Fixpoint all_some {A} (l : list (option A)) : option (list A) :=
+  match l with
+  | [] => Some []
+  | Some x :: r => match all_some r with Some r' => Some (x :: r') | None => None end
+  | None :: _ => None
+  end.
+
+Definition doc_rows (rows : list (list string)) : option (list (list opref)) :=
+  all_some (map (fun r => all_some (map doc_sym r)) rows).
+
+(* every row has one key; keys strictly increase down the table; the postfix row is last *)
+Fixpoint rows_sorted (bp : bp_table) (prev : option nat) (rows : list (list opref)) : bool :=
+  match rows with
+  | [] => true
+  | r :: rest =>
+      match r with
+      | [] => false
+      | x :: _ =>
+          match bind_key bp x with
+          | None =>
+              forallb (fun y => opref_eqb y RPostfix) r && match rest with [] => true | _ => false end
+          | Some k =>
+              forallb (fun y => match bind_key bp y with Some k' => Nat.eqb k k' | None => false end) r
+              && match prev with Some q => q <? k | None => true end
+              && rows_sorted bp (Some k) rest
+          end
+      end
+  end.
+
+Definition rows_cover (rows : list (list opref)) : bool :=
+  forallb (fun o => existsb (fun r => existsb (opref_eqb (RBin o)) r) rows) all_bops
+  && forallb (fun u => existsb (fun r => existsb (opref_eqb (RUn u)) r) rows) all_unops.
+
+(* the strict order of the binding powers is the documented order, row by row *)
+Definition bp_matches_docs_b (bp : bp_table) (rows : list (list string)) : bool :=
+  match doc_rows rows with
+  | Some rs => rows_sorted bp None rs && rows_cover rs
+  | None => false
+  end.
+
+(* the level functions the printer uses are the row numbers of the documented table
+   (row i, counted from 1; 0 is left for the ternary) *)
+Definition ref_lvl (r : opref) : nat :=
+  match r with RBin o => lvl_bin o | RUn u => lvl_un u | RPostfix => lvl_atom end.
+Fixpoint rows_levels (i : nat) (rows : list (list opref)) : bool :=
+  match rows with
+  | [] => true
+  | r :: rest => forallb (fun x => Nat.eqb (ref_lvl x) i) r && rows_levels (S i) rest
+  end.
+Definition doc_levels_b (rows : list (list string)) : bool :=
+  match doc_rows rows with
+  | Some rs => rows_levels 1 rs && rows_cover rs
+  | None => false
+  end.
